@@ -1,14 +1,372 @@
 import Model.Util
 /-
-  Model/Action.lean — (stub) executable model; see DESIGN.md.  Core Lean only.
+  Model/Action.lean — executable model of action selection (`get_action`) in AgileRL.
+
+  * `argmaxFirst`            — `torch.argmax` / `numpy.argmax`: first index of the maximum; scores are
+                               `Option Rat`, `none` standing for −∞ (`masked_fill(-inf)`, the fill value
+                               `numpy.ma` uses for `argmax`).
+  * `dqnRow`                 — `DQN._get_action`, one batch row: `rand_like(q) * mask` → argmax,
+                               `q.masked_fill(~mask, -inf)` → argmax, `where(u > ε, policy, random)`.
+                               The uniform draws (`r` per action, `u` per row) are explicit inputs.
+  * `maPick`, `cqnRow`       — the `numpy.ma` path of RainbowDQN / CQN / NeuralUCB / NeuralTS / MADDPG / MATD3.
+  * `clip`, `clipVec`        — `ndarray.clip(low, high)` / `torch.clamp` per dimension (DDPG, TD3, PPO/IPPO eval).
+  * `rescale`, `rescaleVec`  — `DeterministicActor.rescale_action` for every output activation.
+  * `maContRow`, `maDiscRow` — MADDPG / MATD3 per agent: exploration noise, clamp (per dimension, or with
+                               the first dimension's bounds only — the defect D11, kept as a switch),
+                               `numpy.ma` argmax under the agent's mask, env-defined action override.
+  * `actorOut`, `ddpgAgent`, `maContAgent` — the real actor's `forward` (rescale of the head output) composed
+                               with `get_action`.
+  * `scaleAction`, `pgEvalBox`, `pgMask` — `StochasticActor.scale_action`, evaluation-mode clip / scale of
+                               PPO / IPPO, `EvolvableDistribution.apply_mask` (masked logit := −1e8).
+
+  Not modelled (parameters): the network outputs, the random draws, `exp`/sampling of the stochastic policies.
 -/
+namespace Action
+
+/-! ### argmax over scores with −∞ -/
+
+/-- strict order on scores; `none` = −∞ -/
+def olt : Option Rat → Option Rat → Bool
+  | none, some _ => true
+  | some a, some b => decide (a < b)
+  | _, none => false
+
+/-- scan from the left keeping the first maximum: replace only on a strictly larger score -/
+def argmaxAux (best : Option Rat) (bi : Nat) (i : Nat) : List (Option Rat) → Nat
+  | [] => bi
+  | x :: xs => if olt best x then argmaxAux x i (i + 1) xs else argmaxAux best bi (i + 1) xs
+
+/-- `argmax(dim=-1)` of one row: index of the first maximal score (0 for an empty row) -/
+def argmaxFirst : List (Option Rat) → Nat
+  | [] => 0
+  | x :: xs => argmaxAux x 0 1 xs
+
+/-- `q.masked_fill((1 - mask).bool(), -inf)` / `np.ma.array(q, mask = 1 - mask)` filled for argmax -/
+def maskFill (q : List Rat) (m : List Bool) : List (Option Rat) :=
+  List.zipWith (fun x b => if b then some x else none) q m
+
+/-- `rand_like(q) * mask` -/
+def randScores (r : List Rat) (m : List Bool) : List (Option Rat) :=
+  List.zipWith (fun x b => some (if b then x else 0)) r m
+
+/-- greedy choice under a mask (every masked-array `argmax` in the library) -/
+def maPick (q : List Rat) (m : List Bool) : Nat := argmaxFirst (maskFill q m)
+
+/-- exploring choice under a mask -/
+def explorePick (r : List Rat) (m : List Bool) : Nat := argmaxFirst (randScores r m)
+
+/-- greedy choice without a mask -/
+def plainPick (q : List Rat) : Nat := argmaxFirst (q.map some)
+
+/-! ### DQN -/
+
+/-- one row of `DQN._get_action`: `use_policy = u > ε` -/
+def dqnRow (q r : List Rat) (m : List Bool) (eps u : Rat) : Nat :=
+  if eps < u then maPick q m else explorePick r m
+
+structure DqnIn where
+  q : List Rat
+  r : List Rat
+  m : List Bool
+  u : Rat
+
+def dqnBatch (eps : Rat) (rows : List DqnIn) : List Nat :=
+  rows.map (fun x => dqnRow x.q x.r x.m eps x.u)
+
+/-! ### CQN (one `random.random()` draw for the whole batch) -/
+
+/-- with a mask: explore ⇔ `u < ε` -/
+def cqnRow (q r : List Rat) (m : List Bool) (eps u : Rat) : Nat :=
+  if u < eps then explorePick r m else maPick q m
+
+/-- without a mask the exploring branch is `randint(0, action_dim)` — the draw `k` is an input -/
+def cqnRowNoMask (q : List Rat) (k : Nat) (eps u : Rat) : Nat :=
+  if u < eps then k else plainPick q
+
+/-! ### clip -/
+
+/-- `min(max(x, lo), hi)` — `ndarray.clip`, `torch.clamp` -/
+def clip (lo hi x : Rat) : Rat := min (max x lo) hi
+
+def zipWith3 {α β γ δ} (f : α → β → γ → δ) : List α → List β → List γ → List δ
+  | a :: as, b :: bs, c :: cs => f a b c :: zipWith3 f as bs cs
+  | _, _, _ => []
+
+def clipVec (los his xs : List Rat) : List Rat := zipWith3 clip los his xs
+
+def addVec (xs ys : List Rat) : List Rat := List.zipWith (· + ·) xs ys
+
+/-- DDPG / TD3 `get_action`: actor output (+ exploration noise when training), clipped per dimension -/
+def ddpgRow (training : Bool) (los his a noise : List Rat) : List Rat :=
+  clipVec los his (if training then addVec a noise else a)
+
+/-! ### rescaling of squashed outputs -/
+
+inductive OutAct where
+  | tanh | softsign | sigmoid | softmax | gumbel | unbounded
+deriving Repr, DecidableEq
+
+/-- the pre-scaled range of a bounded output activation -/
+def prescaled : OutAct → Option (Rat × Rat)
+  | .tanh | .softsign => some (-1, 1)
+  | .sigmoid | .softmax | .gumbel => some (0, 1)
+  | .unbounded => none
+
+def rescaleWith (pmin pmax low high a : Rat) : Rat :=
+  low + (high - low) * (a - pmin) / (pmax - pmin)
+
+/-- one dimension of `DeterministicActor.rescale_action` with finite bounds -/
+def rescale (act : OutAct) (low high a : Rat) : Rat :=
+  match prescaled act with
+  | none => a
+  | some (pmin, pmax) => rescaleWith pmin pmax low high a
+
+def allSomeR : List (Option Rat) → Option (List Rat)
+  | [] => some []
+  | none :: _ => none
+  | some a :: r => (allSomeR r).map (a :: ·)
+
+/-- the whole vector: an infinite bound anywhere (`none`) leaves the action untouched -/
+def rescaleVec (act : OutAct) (lows highs : List (Option Rat)) (as : List Rat) : List Rat :=
+  match allSomeR lows, allSomeR highs with
+  | some ls, some hs => zipWith3 (rescale act) ls hs as
+  | _, _ => as
+
+/-! ### multi-agent (MADDPG / MATD3) -/
+
+/-- env-defined actions replace the agent's own where defined (not NaN) -/
+def override (xs : List Rat) (env : List (Option Rat)) : List Rat :=
+  List.zipWith (fun x e => e.getD x) xs env
+
+/-- continuous actions of one agent, one environment.
+    `perDim = true`: clamp each dimension with its own bounds (repaired code);
+    `perDim = false`: clamp every dimension with the bounds of dimension 0 (defect D11). -/
+def maContRow (perDim training : Bool) (los his a noise : List Rat) (env : List (Option Rat)) : List Rat :=
+  let x :=
+    if training then
+      let s := addVec a noise
+      if perDim then clipVec los his s
+      else s.map (clip (los.headD 0) (his.headD 0))
+    else a
+  override x env
+
+/-- discrete actions of one agent, one environment: (noisy, clamped to [0,1]) actor output,
+    masked argmax, env-defined override -/
+def maDiscRow (training : Bool) (p noise : List Rat) (m : List Bool) (env : Option Nat) : Nat :=
+  let x := if training then (addVec p noise).map (clip 0 1) else p
+  env.getD (maPick x m)
+
+/-! ### the whole agent: real `DeterministicActor.forward` (head output → rescale) then `get_action` -/
+
+/-- `DeterministicActor.forward` on a Box with finite bounds: rescale the head's squashed output -/
+def actorOut (act : OutAct) (los his h : List Rat) : List Rat :=
+  rescaleVec act (los.map some) (his.map some) h
+
+def ddpgAgent (act : OutAct) (training : Bool) (los his h noise : List Rat) : List Rat :=
+  ddpgRow training los his (actorOut act los his h) noise
+
+def maContAgent (act : OutAct) (perDim training : Bool) (los his h noise : List Rat)
+    (env : List (Option Rat)) : List Rat :=
+  maContRow perDim training los his (actorOut act los his h) noise env
+
+/-! ### stochastic policies in evaluation mode -/
+
+/-- `StochasticActor.scale_action` -/
+def scaleAction (low high a : Rat) : Rat := low + (1 / 2) * (a + 1) * (high - low)
+
+/-- PPO / IPPO `get_action` when `not self.training` and the space is a Box -/
+def pgEvalBox (squash : Bool) (los his xs : List Rat) : List Rat :=
+  if squash then zipWith3 scaleAction los his xs else clipVec los his xs
+
+/-- the value masked logits are pushed to -/
+def maskedLogit : Rat := -100000000
+
+/-- `apply_action_mask_discrete` -/
+def pgMask (logits : List Rat) (m : List Bool) : List Rat :=
+  List.zipWith (fun l b => if b then l else maskedLogit) logits m
+
+end Action
+
+/-! ### line protocol -/
 namespace Action
 open Util
 
 structure IOState where
-  dummy : Nat := 0
+  calls : Nat := 0
 
-def step (s : IOState) : List String → IOState × String
-  | _ => (s, "bad-op")
+def parseBool? (s : String) : Option Bool :=
+  if s = "1" then some true else if s = "0" then some false else none
+
+def parseBools? (ws : List String) : Option (List Bool) := allSome (ws.map parseBool?)
+
+/-- `_` = undefined (NaN in the real code), `inf` / `-inf` = unbounded -/
+def parseOptRat? (s : String) : Option (Option Rat) :=
+  if s = "_" ∨ s = "inf" ∨ s = "-inf" then some none else (parseRat? s).map some
+
+def parseOptRats? (ws : List String) : Option (List (Option Rat)) := allSome (ws.map parseOptRat?)
+
+def parseOptNat? (s : String) : Option (Option Nat) :=
+  if s = "_" then some none else (parseNat? s).map some
+
+def parseAct? (s : String) : Option OutAct :=
+  match s with
+  | "Tanh" => some .tanh
+  | "Softsign" => some .softsign
+  | "Sigmoid" => some .sigmoid
+  | "Softmax" => some .softmax
+  | "GumbelSoftmax" => some .gumbel
+  | "None" => some .unbounded
+  | _ => none
+
+/-- split `ws` in `k` consecutive blocks of `n` words; `none` unless it fits exactly -/
+def blocks (n k : Nat) (ws : List String) : Option (List (List String)) :=
+  if n = 0 ∨ ws.length ≠ n * k then none else some (chunks n ws)
+
+def step (s : IOState) (ws : List String) : IOState × String :=
+  let s' := { s with calls := s.calls + 1 }
+  let out : String :=
+    match ws with
+    | "dqn" :: n :: eps :: u :: rest =>
+      match parseNat? n, parseRat? eps, parseRat? u with
+      | some n, some eps, some u =>
+        match blocks n 3 rest with
+        | some [qs, rs, ms] =>
+          match parseRats? qs, parseRats? rs, parseBools? ms with
+          | some q, some r, some m => toString (dqnRow q r m eps u)
+          | _, _, _ => "bad-op"
+        | _ => "bad-op"
+      | _, _, _ => "bad-op"
+    | "cqn" :: n :: eps :: u :: rest =>
+      match parseNat? n, parseRat? eps, parseRat? u with
+      | some n, some eps, some u =>
+        match blocks n 3 rest with
+        | some [qs, rs, ms] =>
+          match parseRats? qs, parseRats? rs, parseBools? ms with
+          | some q, some r, some m => toString (cqnRow q r m eps u)
+          | _, _, _ => "bad-op"
+        | _ => "bad-op"
+      | _, _, _ => "bad-op"
+    | "cqn0" :: n :: eps :: u :: k :: rest =>
+      match parseNat? n, parseRat? eps, parseRat? u, parseNat? k with
+      | some n, some eps, some u, some k =>
+        match blocks n 1 rest with
+        | some [qs] =>
+          match parseRats? qs with
+          | some q => if k < n then toString (cqnRowNoMask q k eps u) else "bad-op"
+          | none => "bad-op"
+        | _ => "bad-op"
+      | _, _, _, _ => "bad-op"
+    | "ma" :: n :: rest =>
+      match parseNat? n with
+      | some n =>
+        match blocks n 2 rest with
+        | some [qs, ms] =>
+          match parseRats? qs, parseBools? ms with
+          | some q, some m => toString (maPick q m)
+          | _, _ => "bad-op"
+        | _ => "bad-op"
+      | none => "bad-op"
+    | "amax" :: n :: rest =>
+      match parseNat? n with
+      | some n =>
+        match blocks n 1 rest with
+        | some [qs] =>
+          match parseRats? qs with
+          | some q => toString (plainPick q)
+          | none => "bad-op"
+        | _ => "bad-op"
+      | none => "bad-op"
+    | "clip" :: n :: rest =>
+      match parseNat? n with
+      | some n =>
+        match blocks n 3 rest with
+        | some [ls, hs, xs] =>
+          match parseRats? ls, parseRats? hs, parseRats? xs with
+          | some l, some h, some x => showRats (clipVec l h x)
+          | _, _, _ => "bad-op"
+        | _ => "bad-op"
+      | none => "bad-op"
+    | "ddpg" :: n :: tr :: rest =>
+      match parseNat? n, parseBool? tr with
+      | some n, some tr =>
+        match blocks n 4 rest with
+        | some [ls, hs, as, ns] =>
+          match parseRats? ls, parseRats? hs, parseRats? as, parseRats? ns with
+          | some l, some h, some a, some nz => showRats (ddpgRow tr l h a nz)
+          | _, _, _, _ => "bad-op"
+        | _ => "bad-op"
+      | _, _ => "bad-op"
+    | "ddpgact" :: act :: n :: tr :: rest =>
+      match parseAct? act, parseNat? n, parseBool? tr with
+      | some act, some n, some tr =>
+        match blocks n 4 rest with
+        | some [ls, hs, as, ns] =>
+          match parseRats? ls, parseRats? hs, parseRats? as, parseRats? ns with
+          | some l, some h, some a, some nz => showRats (ddpgAgent act tr l h a nz)
+          | _, _, _, _ => "bad-op"
+        | _ => "bad-op"
+      | _, _, _ => "bad-op"
+    | "macontact" :: act :: n :: pd :: tr :: rest =>
+      match parseAct? act, parseNat? n, parseBool? pd, parseBool? tr with
+      | some act, some n, some pd, some tr =>
+        match blocks n 5 rest with
+        | some [ls, hs, as, ns, es] =>
+          match parseRats? ls, parseRats? hs, parseRats? as, parseRats? ns, parseOptRats? es with
+          | some l, some h, some a, some nz, some e => showRats (maContAgent act pd tr l h a nz e)
+          | _, _, _, _, _ => "bad-op"
+        | _ => "bad-op"
+      | _, _, _, _ => "bad-op"
+    | "rescale" :: act :: n :: rest =>
+      match parseAct? act, parseNat? n with
+      | some act, some n =>
+        match blocks n 3 rest with
+        | some [ls, hs, as] =>
+          match parseOptRats? ls, parseOptRats? hs, parseRats? as with
+          | some l, some h, some a => showRats (rescaleVec act l h a)
+          | _, _, _ => "bad-op"
+        | _ => "bad-op"
+      | _, _ => "bad-op"
+    | "macont" :: n :: pd :: tr :: rest =>
+      match parseNat? n, parseBool? pd, parseBool? tr with
+      | some n, some pd, some tr =>
+        match blocks n 5 rest with
+        | some [ls, hs, as, ns, es] =>
+          match parseRats? ls, parseRats? hs, parseRats? as, parseRats? ns, parseOptRats? es with
+          | some l, some h, some a, some nz, some e => showRats (maContRow pd tr l h a nz e)
+          | _, _, _, _, _ => "bad-op"
+        | _ => "bad-op"
+      | _, _, _ => "bad-op"
+    | "madisc" :: n :: tr :: e :: rest =>
+      match parseNat? n, parseBool? tr, parseOptNat? e with
+      | some n, some tr, some e =>
+        match blocks n 3 rest with
+        | some [ps, ns, ms] =>
+          match parseRats? ps, parseRats? ns, parseBools? ms with
+          | some p, some nz, some m => toString (maDiscRow tr p nz m e)
+          | _, _, _ => "bad-op"
+        | _ => "bad-op"
+      | _, _, _ => "bad-op"
+    | "pgeval" :: n :: sq :: rest =>
+      match parseNat? n, parseBool? sq with
+      | some n, some sq =>
+        match blocks n 3 rest with
+        | some [ls, hs, xs] =>
+          match parseRats? ls, parseRats? hs, parseRats? xs with
+          | some l, some h, some x => showRats (pgEvalBox sq l h x)
+          | _, _, _ => "bad-op"
+        | _ => "bad-op"
+      | _, _ => "bad-op"
+    | "pgmask" :: n :: rest =>
+      match parseNat? n with
+      | some n =>
+        match blocks n 2 rest with
+        | some [ls, ms] =>
+          match parseRats? ls, parseBools? ms with
+          | some l, some m => showRats (pgMask l m)
+          | _, _ => "bad-op"
+        | _ => "bad-op"
+      | none => "bad-op"
+    | _ => "bad-op"
+  (s', out)
 
 end Action
